@@ -321,7 +321,8 @@ MUTANTS = [
     M("c04.9-wrong-done", "C04", "C04.9", RFF, "                If(zqcs_executer.done,\n                    cmd.valid.eq(0),", "                If(sequencer.done,\n                    cmd.valid.eq(0),"),
     M("c07.2-lane-novalid", "C07", "C07.2", ADF, "                If(port_from.cmd.valid,\n                    NextValue(sel, sel | 1 << port_from.cmd.addr[:log2_int(ratio)])\n                )", "                NextValue(sel, sel | 1 << port_from.cmd.addr[:log2_int(ratio)])"),
     M("c07.5-conv-domain", "C07", ["C07.5", "C08.3"], XBF, "            self.submodules += ClockDomainsRenamer(clock_domain)(\n                LiteDRAMNativePortConverter(new_port, port, reverse))", "            self.submodules += LiteDRAMNativePortConverter(new_port, port, reverse)"),
-    M("c09.10-w-range", "C09", "C09.10", AXF, "w_buffer_level   = Signal(max=buffer_depth + 1)", "w_buffer_level   = Signal(max=buffer_depth)"),
+    M("c09.10-w-range", "C09", "C09.10", AXF, "w_buffer_level   = Signal(max=buffer_depth + 2)", "w_buffer_level   = Signal(max=buffer_depth)"),
+    M("c09.10-w-range-f17", "C09", "C09.10", AXF, "w_buffer_level   = Signal(max=buffer_depth + 2)", "w_buffer_level   = Signal(max=buffer_depth + 1)"),   # re-introduces F17
     M("c09.10-r-range", "C09", "C09.10", AXF, "r_buffer_level   = Signal(max=buffer_depth + 1)", "r_buffer_level   = Signal(max=buffer_depth)"),
     M("c09.11-exit-pairing", "C09", "C09.11", AXF, "If((port.cmd.ready | rmw_cmd_done) & (w_buffer.sink.ready | rmw_data_done),", "If((port.cmd.ready | rmw_data_done) & (w_buffer.sink.ready | rmw_cmd_done),"),
     M("c10.1-readcmd-drop", "C10", "C10.1", WBF, "        fsm.act(\"READ_CMD\",\n            If(~wishbone.cyc,\n                NextState(\"CMD\")\n            ).Else(\n                port.cmd.valid.eq(1),\n                port.cmd.we.eq(0),\n                port.cmd.addr.eq(rd_addr),\n                port.cmd.last.eq(rd_last),\n                If(port.cmd.ready,\n                    NextState(\"READ_DATA\")\n                )\n            )\n        )", "        fsm.act(\"READ_CMD\",\n            port.cmd.valid.eq(1),\n            port.cmd.we.eq(0),\n            port.cmd.addr.eq(rd_addr),\n            port.cmd.last.eq(rd_last),\n            If(port.cmd.ready,\n                NextState(\"READ_DATA\")\n            )\n        )"),
